@@ -240,6 +240,9 @@ def run(ctx):
                 depth = rep % 3
                 inserts = [rng.choice(["extra", "Weight", "weights", "bias2", "dtype", "shape2", "comment", "name", "id"]),
                            "input_type", "output_type", "nodes", "edges", "shape", "version"]
+                # (an unknown key may also be the *bytes* spelling of a real field name: it is still not that field)
+                if mandatory:
+                    inserts = inserts + [rng.choice(mandatory).encode("utf8")]
                 for op, key in [("delete", k) for k in mandatory] + [("insert", k) for k in inserts]:
                     d = copy.deepcopy(base)
                     if op == "delete":
@@ -253,15 +256,21 @@ def run(ctx):
                             d[key] = {}
                         elif key == "edges":
                             d[key] = []
+                        elif isinstance(key, bytes):
+                            d[key] = copy.deepcopy(base[key.decode("utf8")])
                         else:
-                            d[key] = rng.choice([1, "x", np.zeros(2)])
+                            d[key] = [1, "x", np.zeros(2), {}, {}][rng.randrange(5)]      # ({}: an empty group in a file)
                     wrapped = d
                     for lvl in range(depth):
                         wrapped = {"type": "NIRGraph", "nodes": {"inner": wrapped, "pad": copy.deepcopy(victims["Scale"])}, "edges": []}
-                    case = {"op": "malformed", "kind": kind, "edit": op, "key": key, "depth": depth}
+                    case = {"op": "malformed", "kind": kind, "edit": op, "key": repr(key) if isinstance(key, bytes) else key, "depth": depth}
                     ctx.case(case); ctx.count(f"malformed_{op}")
-                    corr(wrapped)
-                    vias = ["dict", "file", "file_noversion"] + (["file_softlink", "file_hardlink"] if op == "insert" else [])
+                    if isinstance(key, bytes):
+                        ctx.count("malformed_bytes_spelling_of_field")
+                        vias = ["dict"]
+                    else:
+                        corr(wrapped)
+                        vias = ["dict", "file", "file_noversion"] + (["file_softlink", "file_hardlink"] if op == "insert" else [])
                     for via in vias:
                         try:
                             if via == "dict":
